@@ -29,7 +29,7 @@ WRAP4(KSI_TcpClient_setAggregator, "tcp")
 WRAP4(KSI_TcpClient_setExtender, "tcp")
 WRAP4(KSI_TcpAsyncClient_setService, "tcp")
 
-static char *arg(const char *hex) { size_t l; unsigned char *b; char *s; if (!strcmp(hex, "NULL")) return NULL; b = hx_dec(hex, &l); s = malloc(l + 1); memcpy(s, b, l); s[l] = 0; free(b); return s; }
+static char *arg(const char *hex) { size_t l; unsigned char *b; char *s; if (!strcmp(hex, "NULL")) return NULL; b = hx_dec(hex, &l); s = H_MALLOC(l + 1); memcpy(s, b, l); s[l] = 0; free(b); return s; }
 
 int main(void) {
 	char *line = NULL; size_t cap = 0; char *tok[16];
